@@ -1496,6 +1496,16 @@ emitdata(struct decl *d, struct init *init)
 			assert(cur->expr->kind == EXPRSTRING);
 			assert(init->expr->kind == EXPRCONST);
 			i = (init->start - cur->start) / cur->expr->type->base->size;
+			if (i >= cur->expr->u.string.size) {
+				/* beyond the literal, but inside the array it initializes: extend it with zeros */
+				size_t w = cur->expr->type->base->size, n = (cur->end - cur->start) / w;
+				char *data = xreallocarray(NULL, n, w);
+
+				memcpy(data, cur->expr->u.string.data, cur->expr->u.string.size * w);
+				memset(data + cur->expr->u.string.size * w, 0, (n - cur->expr->u.string.size) * w);
+				cur->expr->u.string.data = data;
+				cur->expr->u.string.size = n;
+			}
 			switch (cur->expr->type->base->size) {
 			case 1: ((unsigned char *)cur->expr->u.string.data)[i]  = init->expr->u.constant.u; break;
 			case 2: ((uint_least16_t *)cur->expr->u.string.data)[i] = init->expr->u.constant.u; break;
